@@ -183,4 +183,58 @@ theorem step (pre rest : List Entry) (e : Entry) (acc : Acc) (hI : Inv pre acc) 
                 simp only [acc1] at h1 h2 ⊢
                 simp only [h1, h2, if_false]; simp
 
+/-! ### counters below MAX_LOSTRQS: the reset loop has nothing left to do -/
+
+def LowAll (l : List Entry) : Prop := ∀ e ∈ l, ∀ st lost, e = some (st, lost) → lost < maxLost
+def AccLow (a : Acc) : Prop := a.best.isSome = true → a.bestLost < maxLost
+
+theorem clamp_low (l : List Entry) : LowAll (clamp l) := by
+  intro e he st lost h
+  simp only [clamp, List.mem_map] at he
+  obtain ⟨e0, _, rfl⟩ := he
+  cases e0 with
+  | none => simp at h
+  | some q =>
+    obtain ⟨s0, l0⟩ := q
+    simp only [Option.map_some, Option.some.injEq, Prod.mk.injEq] at h
+    obtain ⟨_, rfl⟩ := h
+    simp only [maxLost]
+    by_cases hc : l0 ≥ 16
+    · simp [hc]
+    · simp [hc]; omega
+
+theorem scan_low (l : List Entry) (i : Nat) (a a' : Acc) (hl : LowAll l) (ha : AccLow a)
+    (h : scan l i a = .inr a') : AccLow a' := by
+  induction l generalizing i a with
+  | nil => simp only [scan, Sum.inr.injEq] at h; subst h; exact ha
+  | cons e t ih =>
+    have ht : LowAll t := fun e he => hl e (List.mem_cons_of_mem _ he)
+    cases e with
+    | none => simp [scan] at h
+    | some q =>
+      obtain ⟨st, lost⟩ := q
+      have hlo : lost < maxLost := hl _ (List.mem_cons_self) st lost rfl
+      simp only [scan] at h
+      have hfirst : ∀ a : Acc, AccLow a → AccLow (if a.first.isNone then { a with first := some i } else a) := by
+        intro a ha; split <;> exact ha
+      have hset : ∀ a : Acc, AccLow { a with best := some i, bestLost := lost } := fun _ _ => hlo
+      repeat' first
+        | (exfalso; simp at h; done)
+        | (refine ih _ _ ht ?_ h
+           first
+             | exact ha
+             | exact fun _ => hlo
+             | (split <;> first | exact ha | exact fun _ => hlo))
+        | split at h
+
+theorem choose_low (l : List Entry) (hl : LowAll l) : (choose l).2 = l := by
+  unfold choose
+  split
+  · rfl
+  · next acc hs =>
+    have := scan_low l 0 {} acc hl (by intro h; simp at h) hs
+    have hc : ¬ (acc.best.isSome = true ∧ acc.bestLost ≥ maxLost) := by
+      intro ⟨h1, h2⟩; have := this h1; omega
+    simp [hc]
+
 end Rsp.Choose
